@@ -206,7 +206,9 @@ def r6_unify_no_self_binding(ctx):
         if conc not in vback:
             continue      # merged from a nested unification's bindings (each of which passed this rule)
         n += 1
-        kback = fl.backward({kp["l"]}, through_calls=("Clone::clone", "Deref::deref"))
+        NAME_TC = ("Clone::clone", "Deref::deref", "ToString::to_string", "ToOwned::to_owned", "From::from", "Into::into", "String::as_str", "Borrow::borrow",
+                   "AsRef::as_ref", "str::to_owned", "str::to_string")
+        kback = fl.backward({kp["l"]}, through_calls=NAME_TC)
         guard = False
         for eb, et in b.calls():
             c = (et.get("callee") or "")
@@ -214,7 +216,7 @@ def r6_unify_no_self_binding(ctx):
                 continue
             if not b.reaches(eb, bi):
                 continue
-            sides = [fl.backward({op_place(a)["l"]}, through_calls=("Deref::deref", "Clone::clone", "TypeLookup::lookup_type", "Program::lookup_type", "Option::cloned")) if op_place(a) else set()
+            sides = [fl.backward({op_place(a)["l"]}, through_calls=NAME_TC + ("TypeLookup::lookup_type", "Program::lookup_type", "Option::cloned")) if op_place(a) else set()
                      for a in et["args"][:2]]
             # one side: the name inside the type `id` resolves to (a lookup of something derived from the value); other side: the key's name
             def via_lookup(sd):
